@@ -92,8 +92,10 @@ PROVED_DETAIL = {
                                           "datetimes/defaults, dayfirst=False",
     "C02_parse_render_us_date_time": "MM/DD/YYYY x {T, space} x {HH:MM, HH:MM:SS} (4 templates), dayfirst=yearfirst=False",
     "C02_parse_render_name_date": "{DD Mon YYYY, DD Month YYYY} x {date only, ' HH:MM', ' HH:MM:SS'} (6 templates), year >= 100",
-    "C02_parse_render_iso_frac": "YYYY-MM-DDTHH:MM:SS{.,}f with 3 or 6 fraction digits (4 templates)",
-    "C02_parse_render_ctime": "ctime(): 'Www Mon DD HH:MM:SS YYYY', day space-padded, year >= 100",
+    "C02_parse_render_iso_utc": "YYYY-MM-DD{T, space}HH:MM:SS + {Z, ' UTC', ' GMT'} (6 templates) -> UTC, when UTC/GMT are "
+                                "not local zone names",
+    "C02_parse_render_iso_offset": "YYYY-MM-DDTHH:MM:SS + {+HH:MM, -HH:MM, +HH, -HH} (2 templates x sign), offsets "
+                                   "-23:59..+23:59 -> exactly the rendered offset (UTC when zero)",
 }
 
 
